@@ -41,6 +41,53 @@ def scanPayloadNormalOnly : List Nat → List Group
   | [] => []
 termination_by l => l.length
 
+/-! ### Amounts (block.rs:1693-1770 triple branch, 1776-1848 single branch)
+
+A collected output is (slip type, amount). The PAYLOAD of a group is the output whose value is rebroadcast: the middle slip of a
+triple, the slip itself otherwise; the bound markers' amounts never enter the accounting. Amounts are `Nat` (the code uses u64;
+no chain holds amounts whose product with the multiplier wraps). -/
+
+/-- payloads of the groups in order: (is a triple, payload amount) — the same cut as `scan` -/
+def payloads : List (Nat × Nat) → List (Bool × Nat)
+  | a :: b :: c :: rest =>
+    if a.1 == bound && b.1 != bound && c.1 == bound then (true, b.2) :: payloads rest
+    else (false, a.2) :: payloads (b :: c :: rest)
+  | a :: rest => (false, a.2) :: payloads rest
+  | [] => []
+termination_by l => l.length
+
+structure Acct where
+  /-- cv.total_rebroadcast_nolan, total_rebroadcast_slips, total_payout_atr, total_fees_atr,
+      total_fees_paid_by_nonrebroadcast_atr_transactions (contributions of this transaction) -/
+  nolan : Nat
+  slips : Nat
+  payout : Nat
+  fees : Nat
+  nonrb : Nat
+  /-- payload amount of each rebroadcast transaction's OUTPUT, in order -/
+  back : List Nat
+  deriving Repr, DecidableEq
+
+/-- `tripleKeepsFee = false` (the tree as pinned): `create_rebroadcast_bound_transaction` builds the payload OUTPUT from the
+    payload INPUT (amount × multiplier), the fee is booked in total_fees_atr but not taken off the output.
+    `true`: the payload comes back worth amount × multiplier − fee, as for a single output. -/
+def backAmt (tripleFeeDeducted : Bool) (m f : Nat) (g : Bool × Nat) : Nat :=
+  if g.1 && !tripleFeeDeducted then g.2 * m else g.2 * m - f
+
+def acct (fd : Bool) (m f : Nat) : List (Bool × Nat) → Acct
+  | [] => ⟨0, 0, 0, 0, 0, []⟩
+  | g :: gs =>
+    let A := acct fd m f gs
+    if g.2 * m > f then
+      { nolan := A.nolan + g.2, slips := A.slips + 1, payout := A.payout + (g.2 * m - g.2), fees := A.fees + f, nonrb := A.nonrb,
+        back := backAmt fd m f g :: A.back }
+    else
+      { nolan := A.nolan + g.2, slips := A.slips, payout := A.payout, fees := A.fees + g.2, nonrb := A.nonrb + g.2, back := A.back }
+
+def sum : List Nat → Nat
+  | [] => 0
+  | x :: xs => x + sum xs
+
 def Group.tag : Group → String
   | .single _ => "S"
   | .triple _ _ _ => "T"
